@@ -287,3 +287,37 @@ Proof.
   destruct (xselect xo s xkw) as [oc s'] eqn:E. cbn [fst snd] in *.
   apply (rejected_untouched _ _ _ _ _ E). tauto.
 Qed.
+
+(* weights= / flags= in the extended model: an accepted call sets exactly the selection it names and keeps the other *)
+Lemma xselect_weights_flags : forall xo s xkw s', XInv xo s -> NoDup (map fst xkw) -> xselect xo s xkw = (OOk, s') ->
+  let kw := elab_kw (x_vocab xo) xkw in
+  wk (x_core s') = match lookup "weights" kw with Some v => v | None => wk (x_core s) end
+  /\ flk (x_core s') = match lookup "flags" kw with Some v => v | None => flk (x_core s) end.
+Proof.
+  intros xo s xkw s' [W I _] N H kw.
+  assert (Nk : NoDup (keys kw)) by (unfold kw; rewrite keys_elab_kw; exact N).
+  destruct (xselect_cases xo s xkw) as [[oc [P E]]|[spw [sub [P [Rs [Rb E]]]]]]; fold kw in P; rewrite E in H.
+  - exfalso. inversion H; subst. unfold xpre in P.
+    destruct (_ && existsb _ _); [discriminate|].
+    destruct (atom_of _ _); [|discriminate]. destruct (negb _); [discriminate|].
+    destruct (atom_of _ _); [|discriminate]. destruct (negb _); [discriminate|].
+    destruct (negb _); discriminate.
+  - unfold xstep in H. cbv zeta in H. fold kw in H. destruct (all_ok _ _); [|discriminate]. inversion H; subst s'.
+    cbn [x_core with_core].
+    set (r := xreset (x_spw s) (x_sub s) kw spw sub). set (l := xsel_of (x_core s) r (xkw3 kw spw sub)).
+    assert (Nl : NoDup (keys l)) by (apply NoDup_xsel_of; apply (w_nodup _ _ W)).
+    assert (L : forall key, key = "weights"%string \/ key = "flags"%string ->
+                lookup key l = match lookup key kw with Some v => Some v | None => lookup key (sel (x_core s)) end).
+    { intros key Hk. unfold l. rewrite lookup_xsel_of by (apply NoDup_xkw3; exact Nk). rewrite lookup_xkw3.
+      assert (Hp : popped r key = false) by (apply popped_none; destruct Hk; subst; reflexivity).
+      rewrite Hp. destruct Hk; subst; cbn [String.eqb Ascii.eqb Bool.eqb negb]; destruct (lookup _ kw); reflexivity. }
+    split.
+    + change (wk (loop_fn ?o l ?c)) with (lastw "weights" l (wk c)). cbn [wk set_sel xclear_fn].
+      rewrite lastw_lookup by exact Nl. rewrite (L "weights"%string (or_introl eq_refl)).
+      destruct (lookup "weights" kw); [reflexivity|].
+      destruct (lookup "weights" (sel (x_core s))) eqn:R; [symmetry; apply (inv_wk _ _ I); exact R | reflexivity].
+    + change (flk (loop_fn ?o l ?c)) with (lastw "flags" l (flk c)). cbn [flk set_sel xclear_fn].
+      rewrite lastw_lookup by exact Nl. rewrite (L "flags"%string (or_intror eq_refl)).
+      destruct (lookup "flags" kw); [reflexivity|].
+      destruct (lookup "flags" (sel (x_core s))) eqn:R; [symmetry; apply (inv_flk _ _ I); exact R | reflexivity].
+Qed.
